@@ -48,4 +48,9 @@ theorem C16_gen_waitGuard : Generated.waitGuard = some true := by decide
     timeout: `stepObsTimeout` is enabled for every `OKind.result true`). -/
 theorem C16_gen_waitTimeoutForwarded : Generated.waitTimeoutForwarded = some waitTimeoutForwarded := by decide
 
+/-- The handler of `__notify` hands the callback's exception to the logger as a lazy argument and evaluates nothing of
+    it: the model's `logErr` step cannot fail whatever the exception object is (`C16_contained`,
+    `C16_contained_progress` treat the callback's error as an opaque event). -/
+theorem C16_gen_futNotifyLogsExcOpaque : Generated.futNotifyLogsExcOpaque = some true := by decide
+
 end JRV.Props
